@@ -1,5 +1,5 @@
 import MxModel.Proofs.C3
-import MxModel.Proofs.StructMechCor
+import MxModel.Proofs.StructMechHistory
 /-!
 # C03 – derived members equal re-derivation from defined members along the C3 order
 
@@ -248,12 +248,97 @@ theorem mech_linearisation_exists (kw : List String) (ops : List Op) (q : Path) 
     (St.run kw {} ops).mro q = some (q :: (St.run kw {} ops).tail q) :=
   (run_inv kw ops).wf.mro_all q
 
+/-! ### what the accepted operations do (functional correctness)
+
+`mech_refines_derivation` says that the member table is a function of the *definitions* and the direct
+bases; a mechanism that refuses everything, or accepts and does nothing, satisfies it.  The following
+theorems say which operations are accepted and what an accepted one does to the definitions, the spaces
+and the bases - and so, with `mech_refines_derivation`, to the whole state. -/
+
+/-- **when an operation is accepted**: the explicit criterion `SM.St.accepts` (one per operation,
+`Proofs/StructMechEffect.lean`), for every state -/
+theorem mech_accepted_iff (kw : List String) (st : St) (op : Op) :
+    (st.apply kw op).isSome = st.accepts kw op := apply_isSome kw st op
+
+/-- **what an accepted operation does**, in every reachable state (`SM.Effect`): `newCells` / `setFormula` /
+`setRef` define exactly that name in exactly that space (`newCells` under the name the cells gets) and change
+no other definition; `delCells` / `delRef` remove exactly that definition; `addBases` / `removeBases`
+change the direct bases of exactly that space exactly so and no definition; `newSpace` adds exactly that
+space with these bases, defining the references handed to it and nothing else; `delSpace` removes
+exactly the spaces at and below the path, the definitions of the others stay; `renameCells` changes no
+definition under another name; `setGlobal` / `delGlobal` do not touch the spaces. -/
+theorem mech_accepted_effect (kw : List String) (ops : List Op) (op : Op) (st' : St)
+    (hop : (St.run kw {} ops).apply kw op = some st') : Effect kw (St.run kw {} ops) st' op :=
+  apply_spec kw _ st' (run_inv kw ops).wf.keys op hop
+
+/-- … hence the whole member table after an accepted `newCells` (as an instance): every space holds under
+every name its own definition - the new one in `p` under the name the cells got, the old ones elsewhere -
+or the derived copy of the first definition along its (unchanged) linearisation -/
+theorem mech_state_after_newCells (kw : List String) (ops : List Op) (p : Path) (name fname : String) (v : Nat)
+    (st' : St) (hop : (St.run kw {} ops).apply kw (.newCells p name fname v) = some st')
+    (a : Attr) (q : Path) (n : String) :
+    let st := St.run kw {} ops
+    let d : Attr → Path → String → Option Nat := fun a' q' n' =>
+      if q' = p ∧ a' = .cells ∧ n' = st.cellsName kw p name fname then some v else st.defd a' q' n'
+    st'.mem a q n =
+      match d a q n with
+      | some w => some { derived := false, payload := w }
+      | none => ((st.tail q).findSome? (fun b => (d a b n).map (fun w => (b, w)))).map
+          (fun e => { derived := true, payload := e.2 }) := by
+  intro st d
+  have hi' : Inv st' := inv_apply kw st st' _ (run_inv kw ops) hop
+  obtain ⟨hs, hd⟩ := mech_accepted_effect kw ops _ st' hop
+  rw [hi'.mem_eq_derivation a q n, hs.tail]
+  have hdd : ∀ a' q' n', st'.defd a' q' n' = d a' q' n' := hd
+  rw [hdd]
+  unfold St.firstDef
+  have : (fun b => (st'.defd a b n).map (fun w => (b, w))) = (fun b => (d a b n).map (fun w => (b, w))) := by
+    funext b; rw [hdd]
+  rw [this]
+  rfl
+
+/-- **the definitions of a reachable state are exactly those the accepted operations of the history made
+and no later accepted operation removed** - for every history of the twelve operations (`SM.specDefs`: a
+fold over the history that consults the mechanism's state for accept/refuse, for the name an unnamed cells
+gets, and - for `renameCells` only - for which spaces hold a copy of the renamed cells).  With
+`mech_refines_derivation` and the base lists (`mech_accepted_effect`) the whole reachable state is a
+function of the history. -/
+theorem mech_definitions_from_history (kw : List String) (ops : List Op) (a : Attr) (q : Path) (n : String) :
+    (St.run kw {} ops).defd a q n = specDefs kw {} (fun _ _ _ => none) ops a q n :=
+  defd_run kw ops a q n
+
+/-- **what an accepted `renameCells` does to the definitions**, completely (`SM.renameCells_full`) -/
+theorem mech_rename_effect (kw : List String) (ops : List Op) (p : Path) (old new : String) (st' : St)
+    (hop : (St.run kw {} ops).renameCells kw p old new = some st') (a : Attr) (q : Path) (n : String) :
+    st'.defd a q n =
+      if a = .cells ∧ q ∈ (St.run kw {} ops).renameTargets p old then renamedDef (St.run kw {} ops) old new q n
+      else (St.run kw {} ops).defd a q n :=
+  (renameCells_full kw _ st' (run_inv kw ops) p old new hop).2 a q n
+
+/-- **liveness of the plain case**: in every reachable state a cells under a valid name that is used for
+nothing can be created in every existing space, and is then defined there -/
+theorem mech_fresh_cells_accepted (kw : List String) (ops : List Op) (p : Path) (n : String) (v : Nat)
+    (hp : p ∈ (St.run kw {} ops).ids) (hv : Names.isValidName kw n = true) (hu : Unused (St.run kw {} ops) n) :
+    ∃ st', (St.run kw {} ops).apply kw (.newCells p n n v) = some st' ∧ st'.defd .cells p n = some v := by
+  obtain ⟨st', h1, h2⟩ := newCells_accepted_of_unused kw (St.run kw {} ops) p n v hp hv hu
+  refine ⟨st', ?_, h2⟩
+  simp only [St.apply, St.newCellsNamed, hv, if_true]
+  exact h1
+
+/-- … and a space without bases under a fresh valid name, at top level or inside an existing space -/
+theorem mech_fresh_space_accepted (kw : List String) (ops : List Op) (parent : Path) (n : String)
+    (hp : parent = [] ∨ parent ∈ (St.run kw {} ops).ids) (hv : Names.isValidName kw n = true)
+    (hu : Unused (St.run kw {} ops) n) :
+    ∃ st', (St.run kw {} ops).apply kw (.newSpace parent n [] []) = some st' := by
+  obtain ⟨st', h1⟩ := newSpace_accepted_of_unused kw (St.run kw {} ops) parent n hp hv hu
+  exact ⟨st', by simp [St.apply, St.newSpaceRefs, h1, St.setRefs]⟩
+
 /-! Non-vacuity: the diamond `D(B, C)`, `B(A)`, `C(A)`, `f` defined in `A` and redefined in `C`:
 `D.f` is the derived copy of `C.f`; after `C.f` is deleted it is the copy of `A.f`; after the base
 `A` is removed from `B` and `C` … -/
 def diamondOps : List Op := [
-  .newSpace [] "A" [], .newCells ["A"] "f" 1, .newSpace [] "B" [["A"]], .newSpace [] "C" [["A"]],
-  .setFormula ["C"] "f" 2, .newSpace [] "D" [["B"], ["C"]]]
+  .newSpace [] "A" [] [], .newCells ["A"] "f" "f" 1, .newSpace [] "B" [["A"]] [], .newSpace [] "C" [["A"]] [],
+  .setFormula ["C"] "f" 2, .newSpace [] "D" [["B"], ["C"]] []]
 
 example : (St.run [] {} diamondOps).mem .cells ["D"] "f" = some { derived := true, payload := 2 } := by decide
 example : (St.run [] {} diamondOps).tail ["D"] = [["B"], ["C"], ["A"]] := by decide
@@ -262,8 +347,37 @@ example : (St.run [] {} (diamondOps ++ [.delCells ["C"] "f"])).mem .cells ["D"] 
 example : (St.run [] {} (diamondOps ++ [.delCells ["A"] "f"])).mem .cells ["B"] "f" = none := by decide
 example : (St.run [] {} (diamondOps ++ [.delCells ["A"] "f"])).mem .cells ["D"] "f"
     = some { derived := true, payload := 2 } := by decide
+example : Unused (St.run [] {} diamondOps) "g" ∧ ((St.run [] {} diamondOps).accepts [] (.newCells ["B"] "g" "g" 3)) = true := by
+  refine ⟨⟨?_, ?_, ?_⟩, by decide⟩
+  · intro a q
+    by_cases hq : q ∈ (St.run [] {} diamondOps).ids
+    · have hids : (St.run [] {} diamondOps).ids = [["A"], ["B"], ["C"], ["D"]] := by decide
+      have : q ∈ [["A"], ["B"], ["C"], ["D"]] := by rw [← hids]; exact hq
+      simp only [List.mem_cons, List.not_mem_nil, or_false] at this
+      rcases this with rfl | rfl | rfl | rfl <;> cases a <;> decide
+    · exact St.mem_of_not_mem _ a q "g" hq
+  · intro q hn
+    rw [mem_childNames] at hn
+    have hids : (St.run [] {} diamondOps).ids = [["A"], ["B"], ["C"], ["D"]] := by decide
+    have : q ++ ["g"] ∈ [["A"], ["B"], ["C"], ["D"]] := by rw [← hids]; exact hn
+    simp only [List.mem_cons, List.not_mem_nil, or_false] at this
+    rcases this with h | h | h | h <;>
+      · have := congrArg List.getLast? h
+        simp at this
+  · decide
+example : specDefs [] {} (fun _ _ _ => none) (diamondOps ++ [.delCells ["A"] "f", .delCells ["D"] "f"]) .cells ["C"] "f"
+    = some 2 := by decide
+example : specDefs [] {} (fun _ _ _ => none) (diamondOps ++ [.delCells ["A"] "f", .delCells ["D"] "f"]) .cells ["A"] "f"
+    = none := by decide
+-- renaming `A.f` to `g`: the derived copy in `B` follows, `C` keeps its own definition under the new name too
+-- (`D` derives `f` from `C`, not from `A`: it is not renamed but re-derived)
+example : (St.run [] {} diamondOps).renameTargets ["A"] "f" = [["A"], ["B"], ["C"]] := by decide
+example : (St.run [] {} (diamondOps ++ [.renameCells ["A"] "f" "g"])).mem .cells ["D"] "g"
+    = some { derived := true, payload := 2 } := by decide
+example : specDefs [] {} (fun _ _ _ => none) (diamondOps ++ [.renameCells ["A"] "f" "g"]) .cells ["C"] "g" = some 2 := by decide
+example : specDefs [] {} (fun _ _ _ => none) (diamondOps ++ [.renameCells ["A"] "f" "g"]) .cells ["A"] "f" = none := by decide
 -- an operation that is refused (`E(A, B)` has no linearisation)
-example : ((St.run [] {} diamondOps).step [] (.newSpace [] "E" [["A"], ["B"]])).2 = false := by decide
+example : ((St.run [] {} diamondOps).step [] (.newSpace [] "E" [["A"], ["B"]] [])).2 = false := by decide
 
 end mechanism
 
